@@ -612,6 +612,21 @@ def make_export_program(rng, max_pops, allow_instant=False):
                 op = "integrate"
         if fresh and op == "pulse":
             op = "integrate"      # a pulse at the very instant a deme starts is not expressible in the demes format
+        # the mirror case: a population-creating event directly after a pulse.  output() ends every deme at such an event, so the
+        # pulse falls on the end time of its destination, which the demes library rejects (known finding); tagged, and only
+        # generated where instantaneous demes are allowed as well
+        pulse_pending = False
+        for st in steps[::-1]:
+            if st[0] == "integrate":
+                break
+            if st[0] == "pulse":
+                pulse_pending = True
+                break
+        if pulse_pending and op in creating:
+            if allow_instant:
+                feats.add("pulse-before-create")
+            else:
+                op = "integrate"
         if op == "integrate":
             T = float(rng.uniform(0.03, 0.2))
             sizes = []
@@ -727,6 +742,12 @@ WITNESS = {
                  ("split", {"parent": 1}),
                  ("integrate", {"T": 0.08, "sizes": [("constant", 1.5, 1.5), ("constant", 0.7, 0.7), ("constant", 1.0, 1.0)], "ms": {"m12": 1.0}, "initial_t": False})],
                 3, ["constant", "instant-deme", "split"]),
+    "pulse_before_split": ([("split", {"parent": 1}),
+                            ("integrate", {"T": 0.05, "sizes": [("constant", 0.8, 0.8), ("constant", 1.3, 1.3)], "ms": {"m21": 1.0}, "initial_t": False}),
+                            ("pulse", {"dest": 2, "props": [0.15, 0.0]}),
+                            ("split", {"parent": 2}),
+                            ("integrate", {"T": 0.1, "sizes": [("constant", 1.6, 1.6), ("constant", 0.4, 0.4), ("constant", 1.0, 1.0)], "ms": {"m23": 0.4}, "initial_t": False})],
+                           3, ["constant", "pulse-before-create", "pulse2D-into-last", "split"]),
     "admix_new": ([("split", {"parent": 1}),
                    ("integrate", {"T": 0.1, "sizes": [("constant", 1.5, 1.5), ("constant", 0.7, 0.7)], "ms": {"m21": 0.5}, "initial_t": False}),
                    ("admix_new", {"props": [0.3, 0.7]}),
@@ -801,7 +822,8 @@ def run_export(spec, rec, dadi, demes):
             continue
         tags = {"peak_pops": peak, "admix_new": "admix_new" in feats, "initial_t": "initial_t" in feats,
                 "linear": "linear" in feats, "pulse_kinds": [f for f in feats if f.startswith("pulse")],
-                "remove": "remove" in feats, "reorder": "reorder" in feats, "instant_deme": "instant-deme" in feats}
+                "remove": "remove" in feats, "reorder": "reorder" in feats, "instant_deme": "instant-deme" in feats,
+                "pulse_before_create": "pulse-before-create" in feats}
         site = "Demes.output -> Spectrum.from_demes"
         ok, fs_prog = rec.noraise("program-returns", lambda: Numerics.make_extrap_func(lambda n_, p_: run_export_program(dadi, steps, n_, p_))(ns, pts),
                                   site="dadi program", tags=tags)
